@@ -232,6 +232,28 @@ def rule_r1(ctx):
             r = [s for s in n.body if isinstance(s, ast.Return)]
             if r and isinstance(r[0].value, ast.Call) and r[0].value.args:
                 branches[_dt(n.test.comparators[0])] = dotted_of(r[0].value.args[0])
+    # … or the same dispatch driven by a module-level table: `for dt, ty in _TABLE: if dtype == dt: return array.view(ty)`,
+    # `array.view(_TABLE[dtype])`, `_TABLE.get(dtype)`
+    for n in own_nodes(vf.node):
+        tab = None
+        if isinstance(n, ast.For) and isinstance(n.iter, (ast.Name, ast.Call)):
+            it = n.iter
+            if isinstance(it, ast.Call) and isinstance(it.func, ast.Attribute) and it.func.attr == "items":
+                it = it.func.value
+            if isinstance(it, ast.Name) and any(isinstance(x, ast.Call) and isinstance(x.func, ast.Attribute) and x.func.attr == "view" for st in n.body for x in ast.walk(st)):
+                tab = core.assigns.get(it.id)
+        elif isinstance(n, ast.Subscript) and isinstance(n.value, ast.Name) and n.value.id in core.assigns:
+            tab = core.assigns.get(n.value.id)
+        elif isinstance(n, ast.Call) and isinstance(n.func, ast.Attribute) and n.func.attr == "get" and isinstance(n.func.value, ast.Name) and n.func.value.id in core.assigns:
+            tab = core.assigns.get(n.func.value.id)
+        if isinstance(tab, (ast.Tuple, ast.List)):
+            for e in tab.elts:
+                if isinstance(e, (ast.Tuple, ast.List)) and len(e.elts) == 2 and _dt(e.elts[0]):
+                    branches.setdefault(_dt(e.elts[0]), dotted_of(e.elts[1]))
+        elif isinstance(tab, ast.Dict):
+            for k, v in zip(tab.keys, tab.values):
+                if k is not None and _dt(k):
+                    branches.setdefault(_dt(k), dotted_of(v))
     for name in sorted(ml):
         ctx.check("R1", f"view dispatch for {name}", branches.get(name) == np_map[name], vf, vf.node,
                   f"_maybe_view_np_array_with_ml_dtypes views {name} as {branches.get(name)} but the table says {np_map[name]}",
@@ -933,6 +955,19 @@ def rule_r10(ctx):
     ctx.require(n >= 1, "no data_ptr() call found in tensor_adapters")
 
 
+_FLIP_OPS = {ast.Eq: ast.NotEq, ast.NotEq: ast.Eq, ast.Is: ast.IsNot, ast.IsNot: ast.Is, ast.In: ast.NotIn, ast.NotIn: ast.In,
+             ast.Lt: ast.GtE, ast.GtE: ast.Lt, ast.Gt: ast.LtE, ast.LtE: ast.Gt}
+
+
+def _flipped(test: ast.AST) -> str:
+    """Text of the negation of a test, in the form the code would write it."""
+    if isinstance(test, ast.UnaryOp) and isinstance(test.op, ast.Not):
+        return norm(test.operand)
+    if isinstance(test, ast.Compare) and len(test.ops) == 1 and type(test.ops[0]) in _FLIP_OPS:
+        return norm(ast.Compare(left=test.left, ops=[_FLIP_OPS[type(test.ops[0])]()], comparators=test.comparators))
+    return f"not ({norm(test)})"
+
+
 def rule_r12(ctx):
     from ..cfg import CFG
 
@@ -976,6 +1011,15 @@ def rule_r12(ctx):
                 # the reader's own early exits before the load
                 own_exits = {norm(j.test) for j in own_nodes(m.node) if isinstance(j, ast.If) and j.lineno < i.lineno and j.body
                              and isinstance(j.body[-1], (ast.Return, ast.Raise))}
+                # … and the conditions that the tests enclosing the load exclude (`if self.size != 0: <load>` excludes `self.size == 0`)
+                child, par = i, getattr(i, "_parent", None)
+                while par is not None and par is not m.node:
+                    if isinstance(par, ast.If):
+                        if child in par.body:
+                            own_exits.add(_flipped(par.test))
+                        elif child in par.orelse:
+                            own_exits.add(norm(par.test))
+                    child, par = par, getattr(par, "_parent", None)
                 missing = [u for u in unset if u not in own_exits]
                 ctx.check("R12", f"{k.name}.{m.name}: `{fld}` is set by {loader.name}() on every exit the method does not handle itself", not missing, m, i,
                           f"{k.name}.{m.name} relies on `self.{fld}` after `self.{loader.name}()`, but {loader.name} returns without assigning it when `{missing[0] if missing else ''}` "
